@@ -198,8 +198,10 @@ def r4_cowref_arms(ctx):
                     continue
                 v = sw[0][3]
                 after = p[p.index(sw[0]):]
-                sig = tuple(sorted({sym.short(strip_generics(e[2])) for e in after if e[0] == "call" and not isinstance(e[1], tuple) and isinstance(e[2], str) and ("quick_xml::" in e[2])
-                                    and not name_is(e[2], "from", "into", "from_residual", "branch")}))
+                # a private helper that the walker inlined counts as what it does, not as a name of its own
+                inlined = {e[1][1] for e in after if e[0] in ("call", "switch", "store", "ret", "head") and isinstance(e[1], tuple) and len(e[1]) > 2 and e[1][0] == "in"}
+                sig = tuple(sorted({sym.short(strip_generics(e[2])) for e in after if e[0] == "call" and isinstance(e[2], str) and ("quick_xml::" in e[2]) and e[1] not in inlined
+                                    and not name_is(e[2], "from", "into", "from_residual", "branch") and not e[2].rsplit("::", 1)[-1].startswith("visit_")}))
                 arms.setdefault(v, set()).add(sig)
             if len(arms) < 2:
                 continue
@@ -214,4 +216,11 @@ def r4_cowref_arms(ctx):
         ctx.floor("R4", "functions matching on a CowRef", n, 3, config=cfg)
 
 
-RULES = [("R1", r1_siblings), ("R2", r2_chunks), ("R3", r3_owned_borrowed), ("R4", r4_cowref_arms)]
+def r5_whitespace(ctx):
+    """the string-backed and the reader-backed arms of the value splitters agree on what separates items: no std
+    whitespace helper anywhere in the crate (one-whitespace-notion, C01 R5)"""
+    for cfg, F in ctx.facts.items():
+        one_whitespace_notion(ctx, "R5", F, cfg)
+
+
+RULES = [("R1", r1_siblings), ("R2", r2_chunks), ("R3", r3_owned_borrowed), ("R4", r4_cowref_arms), ("R5", r5_whitespace)]
